@@ -399,6 +399,30 @@ class Gen:
         yield self.g_edit(w, ni, sym)
         yield self.g_probe_string(w, ni, sym=sym)
 
+    def s_usys_define(self, w):
+        """A registry whose default unit system is not mks, and symbols defined in it from (value, unit)
+        tuples / quantities: what is stored is value*unit in MKS, whatever the registry converts to."""
+        r = self.rng
+        cands = [i for i, n in enumerate(w.nodes) if n.kind == "custom" and n.usys != "mks"]
+        if cands and r.random() < 0.6:
+            ni = r.choice(cands)
+        else:
+            yield self.g_new_node(w, route="usys")
+            ni = len(w.nodes) - 1
+        sym = r.choice(self.syms)
+        if r.random() < 0.6:
+            yield {"k": "define_unit", "node": ni, "h": 0, "sym": sym, "v": r.choice(VALUES[:5]),
+                   "s": r.choice(["km", "g", "erg", "hr", "Msun", "ft", "km/s", "mK"]), "prefixable": r.random() < 0.5,
+                   "form": r.choice(["tuple", "quantity", "quantity_default"])}
+        else:
+            yield {"k": "add", "node": ni, "h": 0, "sym": sym, "scale": float(r.choice(SCALES)), "dims": "length",
+                   "prefixable": True}
+            yield {"k": "modify_q", "node": ni, "h": 0, "sym": sym, "v": r.choice(VALUES[:5]),
+                   "s": r.choice(["km", "cm", "ft", "g", "hr"])}
+        yield self.g_probe_string(w, ni, sym=sym)
+        yield {"k": "quantity", "node": ni, "h": 0, "v": r.choice(VALUES), "s": self.spell(sym), "route": "ctor", "store": True}
+        yield {"k": "base", "x": w.last_stored, "sys": r.choice(SYSTEMS), "how": "in_base", "store": False}
+
     def s_usys(self, w):
         r = self.rng
         ni = self.pick_node(w)
@@ -473,7 +497,7 @@ class Gen:
             kind = wchoice(r, [
                 ("s_stale", c["w_stale"]), ("s_cross", c["w_cross"]), ("s_refusal", c["w_refusal"]),
                 ("s_default", c["w_default"]), ("s_restart", c["w_restart"]), ("s_usys", c["w_usys"]),
-                ("s_usys_custom", c.get("w_usys_custom", 0)),
+                ("s_usys_custom", c.get("w_usys_custom", 0)), ("s_usys_define", c["w_usys"] * 0.7),
                 ("new_node", c["w_new_node"]), ("edit", c["w_edit"]), ("probe", c["w_probe"]),
                 ("calc", c["w_calc"]), ("chaos", c["w_chaos"]),
             ])
